@@ -108,6 +108,7 @@ type Case struct {
 	ID       int       `json:"id"`
 	Fam      string    `json:"fam,omitempty"` // "" static resolution | "dyn" events through the real handlers
 	Dyn      *DynSpec  `json:"dyn,omitempty"`
+	Res      *ResSpec  `json:"res,omitempty"`
 	Class    string    `json:"class"`
 	Plus     bool      `json:"plus"`
 	Resolver bool      `json:"resolver"`
@@ -358,6 +359,10 @@ func runBackend(v *k8s.VerifC14, c *Case, b Backend) (o BObs) {
 func runCase(c *Case) {
 	if c.Fam == "dyn" {
 		runDyn(c)
+		return
+	}
+	if c.Fam == "res" {
+		runRes(c)
 		return
 	}
 	defer func() {
@@ -801,6 +806,21 @@ func main() {
 	for _, c := range dynCorpus() {
 		c := c
 		c.ID = id
+		id++
+		runCase(&c)
+		w.Emit(c)
+	}
+	// the resource family (several backends per resource, endpoints-only updates): a third as many cases
+	for _, c := range resCorpus() {
+		c := c
+		c.ID = id
+		id++
+		runCase(&c)
+		w.Emit(c)
+	}
+	rroot := vh.NewRng(a.Seed ^ 0x7e50c14)
+	for i := 0; i < a.N/3; i++ {
+		c := genRes(rroot.Fork(uint64(i)), id)
 		id++
 		runCase(&c)
 		w.Emit(c)
